@@ -595,6 +595,17 @@ func ruleHandshakeTable(c *Ctx) {
 		// appended text is "|" + one verb
 		if as.Tok != token.ADD_ASSIGN {
 			ok7 = false
+		} else if be, isB := ast.Unparen(as.Rhs[0]).(*ast.BinaryExpr); isB && be.Op == token.ADD {
+			// "|" + strconv.FormatBool(x): one separator, then one value
+			if sv, isS := constString(info, be.X); !isS || sv != "|" {
+				ok7 = false
+			}
+			if sv, isS := constString(info, be.Y); isS && strings.Contains(sv, "|") {
+				ok7 = false
+			}
+			if _, isB2 := ast.Unparen(be.Y).(*ast.BinaryExpr); isB2 {
+				ok7 = false
+			}
 		} else if call, isC := ast.Unparen(as.Rhs[0]).(*ast.CallExpr); isC && p.CalleeName(f, call) == "fmt.Sprintf" {
 			if s, isS := constString(info, call.Args[0]); !isS || strings.Count(s, "|") != 1 || !strings.HasPrefix(s, "|") {
 				ok7 = false
@@ -692,5 +703,74 @@ func ruleHandshakeTable(c *Ctx) {
 		c.R.Hold("R-TABLE/handshake", p.Pos(line), f.Name, "announced certificate is the serving leaf", "field 6 = base64(cert.Certificate[0]) of the key pair put into the TLS config", true)
 	} else {
 		c.R.Violate("R-TABLE/handshake", p.Pos(line), f.Name, "announced certificate is the serving leaf", "the certificate announced in the handshake is not the leaf of the generated serving certificate", nil)
+	}
+}
+
+// ---------- R-LISTEN/unix: the Unix listener is bound on the path that is announced ----------
+
+// ruleUnixListen: in serverListener_unix every net.Listen("unix", a) binds the
+// name of the temporary file created in the configured socket directory, as
+// returned by (*os.File).Name() - not a name derived from it (a base name bound
+// after a chdir gives a listener whose Addr(), which is what Serve and the
+// broker announce, cannot be dialled by the other process) - and the library
+// never changes the process's working directory.
+func ruleUnixListen(c *Ctx) {
+	p := c.P
+	f := p.Fn("serverListener_unix")
+	if f == nil {
+		c.R.Undecided("R-LISTEN/unix", "serverListener_unix", "anchor", "function not found")
+		return
+	}
+	info := f.Pkg.TypesInfo
+	n := 0
+	for _, call := range f.Calls() {
+		if p.CalleeName(f, call) != "net.Listen" || len(call.Args) != 2 {
+			continue
+		}
+		n++
+		construct := fmt.Sprintf("net.Listen #%d binds the created path", n)
+		nw, isS := constString(info, call.Args[0])
+		ok := isS && nw == "unix"
+		if ok {
+			ok = false
+			if nameCall, isC := ast.Unparen(p.Deref(f, call.Args[1])).(*ast.CallExpr); isC && p.CalleeName(f, nameCall) == "os.File.Name" {
+				if se, isSel := ast.Unparen(nameCall.Fun).(*ast.SelectorExpr); isSel {
+					recv := identObj(info, se.X)
+					for _, mk := range f.Calls() {
+						switch p.CalleeName(f, mk) {
+						case "os.CreateTemp", "io/ioutil.TempFile":
+							if len(mk.Args) == 2 && recv != nil && types.Object(assignedVar(p, info, mk)) == recv {
+								if fv := SelField(info, mk.Args[0]); fv != nil && p.FieldName(fv) == "UnixSocketConfig.socketDir" {
+									ok = true
+								}
+							}
+						}
+					}
+				}
+			}
+		}
+		if ok {
+			c.R.Hold("R-LISTEN/unix", p.Pos(call), f.Name, construct, "the address bound is File.Name() of the temporary file created in UnixSocketConfig.socketDir", true)
+		} else {
+			c.R.Violate("R-LISTEN/unix", p.Pos(call), f.Name, construct, "the listener is bound on something other than the full name of the temporary file created in the socket directory: its Addr(), which Serve prints and the broker sends, is then not a path the other process can dial", nil)
+		}
+	}
+	if n == 0 {
+		c.R.Undecided("R-LISTEN/unix", f.Name, "net.Listen", "no net.Listen call found")
+	}
+	nChdir := 0
+	for _, g := range p.Funcs {
+		if strings.HasSuffix(p.Fset.Position(g.Body.Pos()).Filename, "testing.go") {
+			continue
+		}
+		for _, call := range g.Calls() {
+			if nm := p.CalleeName(g, call); nm == "os.Chdir" || nm == "syscall.Chdir" || nm == "os.File.Chdir" {
+				nChdir++
+				c.R.Violate("R-LISTEN/unix", p.Pos(call), g.Name, "no change of the working directory", "the library changes the working directory of the process it runs in: relative socket paths, the plugin's own relative file accesses and every other goroutine see it", nil)
+			}
+		}
+	}
+	if nChdir == 0 {
+		c.R.Hold("R-LISTEN/unix", "-", "", "no change of the working directory", "no call of os.Chdir in the module", true)
 	}
 }
